@@ -128,8 +128,21 @@ func GenScript(t *rapid.T, o GenOpts) Script {
 	p := kit.GenParams(t)
 	base := rapid.IntRange(0, o.MaxBase).Draw(t, "base")
 	fut := rapid.IntRange(1, o.MaxFuture).Draw(t, "future")
+	// Context mode (one case in six when stores may be pre-filled): the
+	// client starts on a non-genesis tip with more than eleven stored
+	// ancestors, the clocks are bursty, and the first answer of the first
+	// peer carries a few valid headers followed by one that breaks a rule
+	// which depends on the ancestors (median time, required bits). This is
+	// the shape in which a validation context that forgets the stored
+	// ancestors accepts a header it must refuse.
+	ctxMode := o.Prefill && o.MaxBase >= 16 && kit.Uni(t, "ctxmode", 6) == 0
+	pace := kit.Pick(t, "pace", []int{0, 1, 2, 3, 4, 4})
+	if ctxMode {
+		base = 14 + kit.Uni(t, "ctxbase", o.MaxBase-13)
+		pace = kit.Pick(t, "ctxpace", []int{3, 4, 4})
+	}
 	ws := kit.WorldSpec{P: p, Seed: rapid.Uint64Range(0, 7).Draw(t, "wseed"), Base: base, Future: fut,
-		Pace: kit.Pick(t, "pace", []int{0, 1, 2, 3, 4, 4}), Tx: o.Tx}
+		Pace: pace, Tx: o.Tx}
 	ws.Branches = kit.GenBranches(t, base+fut, base, o.MaxBranches, o.MaxBLen)
 	if o.Checkpoints && base+fut > 2 {
 		n := rapid.IntRange(0, 3).Draw(t, "ncp")
@@ -151,6 +164,9 @@ func GenScript(t *rapid.T, o GenOpts) Script {
 	sc.Initial = rapid.IntRange(1, sc.NPeers).Draw(t, "initial")
 	if o.Prefill && base > 0 && rapid.IntRange(0, 2).Draw(t, "prefillp") == 0 {
 		sc.Prefill = rapid.IntRange(1, base).Draw(t, "prefill")
+	}
+	if ctxMode {
+		sc.Prefill = 11 + kit.Uni(t, "ctxprefill", base-12)
 	}
 	nb := len(ws.Branches)
 	tipH := func(b int) int {
@@ -202,6 +218,10 @@ func GenScript(t *rapid.T, o GenOpts) Script {
 		if rapid.IntRange(0, 2).Draw(t, "initlie") == 0 {
 			il.Mut = kit.GenMut(t, "ilmut")
 			il.K = rapid.IntRange(0, 12).Draw(t, "ilk")
+		}
+		if ctxMode && i == 0 {
+			il.Mut = kit.Pick(t, "ctxmut", []string{kit.MutMTP, kit.MutMTP, kit.MutBits})
+			il.K = 1 + kit.Uni(t, "ctxk", 9)
 		}
 		sc.InitLies = append(sc.InitLies, il)
 	}
